@@ -77,7 +77,7 @@ func (g GroupedPoints) SetValue(v reflect.Value) error {
 		}
 		// Remove validFields as tombstone points are found
 		for _, p := range g.Points {
-			if p.Tombstone%2 == 1 {
+			if p.Tombstone%2 != 0 {
 				delete(validFields, p.Key)
 			} else {
 				validFields[p.Key] = true
@@ -138,7 +138,7 @@ func (g GroupedPoints) SetValue(v reflect.Value) error {
 		for _, p := range g.Points {
 			// Note: array / slice values are set directly on the indexed Value
 			index, _ := strconv.Atoi(p.Key)
-			if p.Tombstone%2 == 1 {
+			if p.Tombstone%2 != 0 {
 				deletedIndexes = append(deletedIndexes, index)
 				// Ignore this deleted value if it won't fit in the slice anyway
 				// Note: KeyMaxInt is not set for points with Tombstone set, so
@@ -201,7 +201,7 @@ func (g GroupedPoints) SetValue(v reflect.Value) error {
 			if key == "" {
 				key = "0"
 			}
-			if p.Tombstone%2 == 1 {
+			if p.Tombstone%2 != 0 {
 				// We want to delete the map entry if Tombstone is set
 				v.SetMapIndex(reflect.ValueOf(key), reflect.Value{})
 			} else {
@@ -456,7 +456,7 @@ func setVal(p Point, v reflect.Value) error {
 	if !v.CanSet() {
 		return fmt.Errorf("cannot set value")
 	}
-	if p.Tombstone%2 == 1 {
+	if p.Tombstone%2 != 0 {
 		// Set to zero value
 		v.Set(reflect.Zero(v.Type()))
 		return nil
